@@ -34,7 +34,7 @@ pub fn run(op: &str, a: &Args) -> Option<Args> {
             let n = set_bits(&mut wd, &data, to_usize(&a[2]), to_usize(&a[3]), to_usize(&a[4]));
             vec![gbytes(&wd), g(n)]
         }
-        _ => return None,
+        _ => return run2(op, a),
     })
 }
 
@@ -72,6 +72,7 @@ fn grid(tier: &str, r: &mut Rng) -> Vec<(usize, usize)> {
 }
 
 pub fn generate(tier: &str, r: &mut Rng, emit: &mut dyn FnMut(Case)) {
+    generate_api(tier, r, emit);
     let pairs = grid(tier, r);
     let kinds = if tier == "thorough" { 8 } else { 3 };
     for &(off, len) in &pairs {
@@ -94,6 +95,284 @@ pub fn generate(tier: &str, r: &mut Rng, emit: &mut dyn FnMut(Case)) {
             let models: &[&str] = if zero_dest { &["c19.set_bits", "c19.set_bits.spec"] } else { &["c19.set_bits"] };
             emit(Case::new("c19.set_bits", vec![gbytes(&dst), gbytes(&buf), g(ow), g(off), g(len)], models,
                 format!("sb z{} r{} w{} {tag}", zero_dest as u8, off % 8, ow % 8)));
+        }
+    }
+}
+
+// ===================================================================== whole-API operations vs list-of-bool spec
+use arrow_buffer::buffer::{
+    bitwise_bin_op_helper, bitwise_quaternary_op_helper, bitwise_unary_op_helper, buffer_bin_and, buffer_bin_and_not,
+    buffer_bin_or, buffer_bin_xor, buffer_unary_not,
+};
+use arrow_buffer::bit_iterator::{BitIndexU32Iterator, BitIterator};
+use arrow_buffer::bit_util::{apply_bitwise_binary_op, apply_bitwise_unary_op};
+use arrow_buffer::{BooleanBuffer, BooleanBufferBuilder, Buffer, MutableBuffer, NullBuffer};
+
+fn w1(code: usize, a: u64) -> u64 { match code { 0 => !a, 1 => a, 2 => u64::MAX, _ => 0 } }
+fn w2(code: usize, a: u64, b: u64) -> u64 {
+    match code { 0 => a & b, 1 => a | b, 2 => a ^ b, 3 => a & !b, 4 => !(a & b), 5 => !a | b, 6 => a, _ => b }
+}
+fn w4(code: usize, a: u64, b: u64, c: u64, d: u64) -> u64 {
+    match code { 0 => (a & b) | (c & d), 1 => a ^ b ^ c ^ d, 2 => (a | b) & !(c & d), _ => (a & b) | (!a & (c | d)) }
+}
+/// Buffer whose data pointer has the requested alignment (mod 8) and the given bytes.
+fn mkbuf(bytes: &[u8], align: usize) -> Buffer {
+    let mut v = vec![0u8; align];
+    v.extend_from_slice(bytes);
+    Buffer::from_vec(v).slice(align)
+}
+fn bb(bytes: &[u8], align: usize, off: usize, len: usize) -> BooleanBuffer { BooleanBuffer::new(mkbuf(bytes, align), off, len) }
+fn bits_of(b: &BooleanBuffer) -> Group { (0..b.len()).map(|i| BigInt::from(b.value(i) as u8)).collect() }
+fn bits_of_buf(b: &Buffer, off: usize, len: usize) -> Group {
+    (0..len).map(|i| BigInt::from(arrow_buffer::bit_util::get_bit(b.as_slice(), off + i) as u8)).collect()
+}
+
+pub fn run2(op: &str, a: &Args) -> Option<Args> {
+    Some(match op {
+        // [bytes][off][len][api][fn]
+        "c19.unop" => {
+            let (bytes, off, len, api, f) = (to_u8s(&a[0]), to_usize(&a[1]), to_usize(&a[2]), to_usize(&a[3]), to_usize(&a[4]));
+            let align = api / 16; let api = api % 16;
+            let b = bb(&bytes, align, off, len);
+            let out: Group = match api {
+                0 => { assert_eq!(f, 0); bits_of(&!&b) }
+                1 => { assert_eq!(f, 0); bits_of_buf(&buffer_unary_not(b.inner(), off, len), 0, len) }
+                2 => bits_of_buf(&bitwise_unary_op_helper(b.inner(), off, len, |x| w1(f, x)), 0, len),
+                3 => bits_of(&BooleanBuffer::from_bitwise_unary_op(b.inner().as_slice(), off, len, |x| w1(f, x))),
+                4 => { assert_eq!(f, 1); bits_of(&BooleanBuffer::from_bits(b.inner().as_slice(), off, len)) }
+                5 => { assert_eq!(f, 1); bits_of_buf(&b.sliced(), 0, len) }
+                6 => { assert_eq!(f, 1); bits_of(&BooleanBuffer::collect_bool(len, |i| b.value(i))) }
+                7 => { assert_eq!(f, 1); bits_of(&b.iter().collect::<BooleanBuffer>()) }
+                8 => { assert_eq!(f, 1); let v: Vec<bool> = b.iter().collect(); bits_of(&BooleanBuffer::from(v)) }
+                9 => { assert_eq!(f, 1); let s = b.slice(len / 3, len - len / 3); let mut g = bits_of(&b.slice(0, len / 3)); g.extend(bits_of(&s)); g }
+                10 => { assert_eq!(f, 1); bits_of_buf(&b.inner().bit_slice(off, len), 0, len) }
+                11 => { assert_eq!(f, 1); gbools(BitIterator::new(b.values(), off, len)) }
+                12 => { assert_eq!(f, 1); let mut v = vec![false; len]; for i in b.set_indices() { v[i] = true; } gbools(v) }
+                13 => { assert_eq!(f, 1); let mut v = vec![false; len]; for i in BitIndexU32Iterator::new(b.values(), off, len) { v[i as usize] = true; } gbools(v) }
+                14 => { assert_eq!(f, 1); let mut v = vec![false; len]; for (s, e) in b.set_slices() { for i in s..e { v[i] = true; } } gbools(v) }
+                _ => { assert_eq!(f, 1); let c = b.bit_chunks(); let mut v = Vec::new(); for w in c.iter_padded() { for j in 0..64 { v.push((w >> j) & 1 == 1); } } v.truncate(len); gbools(v) }
+            };
+            vec![out]
+        }
+        // [lbytes][loff][rbytes][roff][len][api][fn]
+        "c19.binop" => {
+            let (lb, lo, rb, ro, len, api, f) = (to_u8s(&a[0]), to_usize(&a[1]), to_u8s(&a[2]), to_usize(&a[3]), to_usize(&a[4]), to_usize(&a[5]), to_usize(&a[6]));
+            let (al, ar) = ((api / 16) % 8, (api / 128) % 8); let api = api % 16;
+            let l = bb(&lb, al, lo, len); let r = bb(&rb, ar, ro, len);
+            let out: Group = match api {
+                0 => match f { 0 => bits_of(&(&l & &r)), 1 => bits_of(&(&l | &r)), _ => bits_of(&(&l ^ &r)) },
+                1 => { let bf = match f { 0 => buffer_bin_and(l.inner(), lo, r.inner(), ro, len), 1 => buffer_bin_or(l.inner(), lo, r.inner(), ro, len),
+                        2 => buffer_bin_xor(l.inner(), lo, r.inner(), ro, len), _ => buffer_bin_and_not(l.inner(), lo, r.inner(), ro, len) }; bits_of_buf(&bf, 0, len) }
+                2 => bits_of_buf(&bitwise_bin_op_helper(l.inner(), lo, r.inner(), ro, len, |x, y| w2(f, x, y)), 0, len),
+                3 => bits_of(&BooleanBuffer::from_bitwise_binary_op(l.inner().as_slice(), lo, r.inner().as_slice(), ro, len, |x, y| w2(f, x, y))),
+                4 => { let mut x = l.clone(); match f { 0 => x &= &r, 1 => x |= &r, _ => x ^= &r }; bits_of(&x) }
+                _ => { // uniquely owned left: in-place path of the assign operators
+                    let mut x = BooleanBuffer::new(Buffer::from_vec(lb.clone()), lo, len);
+                    match f { 0 => x &= &r, 1 => x |= &r, _ => x ^= &r }; bits_of(&x) }
+            };
+            vec![out]
+        }
+        "c19.quat" => {
+            let len = to_usize(&a[8]); let f = to_usize(&a[9]);
+            let bufs: Vec<Buffer> = (0..4).map(|i| mkbuf(&to_u8s(&a[2 * i]), i)).collect();
+            let offs = [to_usize(&a[1]), to_usize(&a[3]), to_usize(&a[5]), to_usize(&a[7])];
+            let r = bitwise_quaternary_op_helper([&bufs[0], &bufs[1], &bufs[2], &bufs[3]], offs, len, |x, y, z, w| w4(f, x, y, z, w));
+            vec![bits_of_buf(&r, 0, len)]
+        }
+        "c19.unop_inplace" => {
+            let mut buf = to_u8s(&a[0]); let f = to_usize(&a[3]);
+            apply_bitwise_unary_op(&mut buf, to_usize(&a[1]), to_usize(&a[2]), |x| w1(f, x));
+            vec![gbytes(&buf)]
+        }
+        "c19.binop_inplace" => {
+            let mut l = to_u8s(&a[0]); let r = to_u8s(&a[2]); let f = to_usize(&a[5]);
+            apply_bitwise_binary_op(&mut l, to_usize(&a[1]), &r, to_usize(&a[3]), to_usize(&a[4]), |x, y| w2(f, x, y));
+            vec![gbytes(&l)]
+        }
+        // [bytes][off][len][api]
+        "c19.count" => {
+            let (bytes, off, len, api) = (to_u8s(&a[0]), to_usize(&a[1]), to_usize(&a[2]), to_usize(&a[3]));
+            let b = bb(&bytes, api / 8, off, len);
+            vec![g(match api % 8 {
+                0 => b.count_set_bits(),
+                1 => b.inner().count_set_bits_offset(off, len),
+                2 => len - NullBuffer::new(b.clone()).null_count(),
+                3 => UnalignedBitChunk::new(b.values(), off, len).count_ones(),
+                4 => b.set_indices().count(),
+                5 => b.set_slices().map(|(s, e)| e - s).sum(),
+                6 => b.iter().filter(|x| *x).count(),
+                _ => b.bit_chunks().iter_padded().map(|w| w.count_ones() as usize).sum(),
+            })]
+        }
+        "c19.has" => {
+            let b = bb(&to_u8s(&a[0]), to_usize(&a[3]), to_usize(&a[1]), to_usize(&a[2]));
+            vec![vec![(b.has_true() as u8).into(), (b.has_false() as u8).into()]]
+        }
+        "c19.find_nth" => {
+            let b = bb(&to_u8s(&a[0]), 0, to_usize(&a[1]), to_usize(&a[2]));
+            vec![g(b.find_nth_set_bit_position(to_usize(&a[3]), to_usize(&a[4])))]
+        }
+        "c19.iter_script" => {
+            let bytes = to_u8s(&a[0]);
+            let mut it = BitIterator::new(&bytes, to_usize(&a[1]), to_usize(&a[2]));
+            let zob = |o: Option<bool>| BigInt::from(match o { None => -1, Some(true) => 1, Some(false) => 0 });
+            let mut out = Vec::new();
+            for (c, k) in to_i64s(&a[3]).iter().zip(to_i64s(&a[4]).iter()) {
+                let k = *k as usize;
+                out.push(zob(match c { 0 => it.next(), 1 => it.next_back(), 2 => it.nth(k), _ => it.nth_back(k) }));
+            }
+            out.push(BigInt::from(it.len()));
+            out.push(zob(it.clone().last()));
+            out.push(zob(it.clone().max()));
+            vec![out]
+        }
+        "c19.eq" => {
+            let x = bb(&to_u8s(&a[0]), 0, to_usize(&a[1]), to_usize(&a[4]));
+            let y = bb(&to_u8s(&a[2]), 3, to_usize(&a[3]), to_usize(&a[5]));
+            vec![g((x == y) as u8)]
+        }
+        "c19.union" => {
+            let len = to_usize(&a[6]);
+            let x = if to_usize(&a[0]) != 0 { Some(NullBuffer::new(bb(&to_u8s(&a[1]), 1, to_usize(&a[2]), len))) } else { None };
+            let y = if to_usize(&a[3]) != 0 { Some(NullBuffer::new(bb(&to_u8s(&a[4]), 2, to_usize(&a[5]), len))) } else { None };
+            out_opt(NullBuffer::union(x.as_ref(), y.as_ref()))
+        }
+        "c19.union_many" => {
+            let len = to_usize(&a[0]);
+            let nbs: Vec<Option<NullBuffer>> = a[1..].chunks(3).map(|c| if to_usize(&c[0]) != 0 { Some(NullBuffer::new(bb(&to_u8s(&c[1]), 0, to_usize(&c[2]), len))) } else { None }).collect();
+            out_opt(NullBuffer::union_many(nbs.iter().map(|x| x.as_ref())))
+        }
+        "c19.contains" => {
+            let len = to_usize(&a[4]);
+            let x = NullBuffer::new(bb(&to_u8s(&a[0]), 0, to_usize(&a[1]), len));
+            let y = NullBuffer::new(bb(&to_u8s(&a[2]), 5, to_usize(&a[3]), len));
+            vec![g(x.contains(&y) as u8)]
+        }
+        "c19.expand" => {
+            let x = NullBuffer::new(bb(&to_u8s(&a[0]), 0, to_usize(&a[1]), to_usize(&a[2])));
+            let e = x.expand(to_usize(&a[3]));
+            assert_eq!(e.null_count(), e.len() - e.inner().count_set_bits());
+            vec![bits_of(e.inner())]
+        }
+        "c19.builder" => {
+            let mut b = BooleanBufferBuilder::new(0);
+            for gop in a {
+                let v: Vec<i64> = to_i64s(gop);
+                let bits = |s: &[i64]| s.iter().map(|x| *x != 0).collect::<Vec<bool>>();
+                match v[0] {
+                    0 => b.append(v[1] != 0),
+                    1 => b.append_n(v[1] as usize, v[2] != 0),
+                    2 => b.append_slice(&bits(&v[1..])),
+                    3 => { // append_packed_range / append_buffer: pack the bits at a bit offset derived from the length
+                        let bs = bits(&v[1..]); let off = (bs.len() * 7 + 3) % 19;
+                        let mut packed = vec![0xA5u8; (off + bs.len() + 7) / 8 + 1];
+                        for (i, x) in bs.iter().enumerate() { if *x { arrow_buffer::bit_util::set_bit(&mut packed, off + i) } else { arrow_buffer::bit_util::unset_bit(&mut packed, off + i) } }
+                        if bs.len() % 2 == 0 { b.append_packed_range(off..off + bs.len(), &packed) }
+                        else { b.append_buffer(&BooleanBuffer::new(Buffer::from_vec(packed), off, bs.len())) }
+                    }
+                    4 => b.set_bit(v[1] as usize, v[2] != 0),
+                    5 => b.truncate(v[1] as usize),
+                    6 => b.resize(v[1] as usize),
+                    7 => b.advance(v[1] as usize),
+                    _ => { let bs = bits(&v[1..]); let mut w = 0u64; for (i, x) in bs.iter().enumerate() { if *x { w |= 1 << i } } b.append_word(w, bs.len()) }
+                }
+            }
+            let fin = b.finish_cloned();
+            assert_eq!(fin.len(), b.len());
+            let fin2 = b.finish();
+            assert!(fin == fin2);
+            vec![bits_of(&fin2)]
+        }
+        _ => return None,
+    })
+}
+fn out_opt(o: Option<NullBuffer>) -> Args {
+    match o { Some(n) => { assert_eq!(n.null_count(), n.len() - n.inner().count_set_bits()); vec![g(1), bits_of(n.inner())] } None => vec![g(0), vec![]] }
+}
+
+fn lenclass(len: usize) -> usize { if len == 0 { 0 } else if len < 64 { 1 } else if len % 64 == 0 { 2 } else if len < 128 { 3 } else { 4 } }
+
+fn generate_api(tier: &str, r: &mut Rng, emit: &mut dyn FnMut(Case)) {
+    let n = if tier == "thorough" { 12000 } else { 1200 };
+    let big = |r: &mut Rng| if r.chance(1, 12) { 900 + r.below(1300) } else { r.below(201) };
+    for _ in 0..n {
+        // --- unary family
+        let (off, len) = (r.below(131), big(r));
+        let kind = r.below(9);
+        let pad = r.below(4) + 1;
+        let buf = content(r, kind, (off + len + 7) / 8 + pad, off, len);
+        let api = r.below(16); let align = r.below(8);
+        let f = match api { 0 | 1 => 0, 2 | 3 => r.below(4), _ => 1 };
+        emit(Case::new("c19.unop", vec![gbytes(&buf), g(off), g(len), g(api + 16 * align), g(f)], &["c19.unop.spec"],
+            format!("unop api{api} f{f} o{} l{} k{kind}", off % 8, lenclass(len))));
+        emit(Case::new("c19.count", vec![gbytes(&buf), g(off), g(len), g(r.below(8) + 8 * align)], &["c19.count.spec"], format!("count o{} l{} k{kind}", off % 8, lenclass(len))));
+        emit(Case::new("c19.has", vec![gbytes(&buf), g(off), g(len), g(align)], &["c19.has.spec"], format!("has o{} l{} k{kind} a{align}", off % 8, lenclass(len))));
+        let f1 = r.below(4);
+        emit(Case::new("c19.unop_inplace", vec![gbytes(&buf), g(off), g(len), g(f1)], &["c19.unop_inplace.spec"], format!("unip f{f1} o{} l{} k{kind}", off % 8, lenclass(len))));
+        if len > 0 {
+            let start = r.below(len + 1); let nth = r.below(len.min(12) + 2);
+            emit(Case::new("c19.find_nth", vec![gbytes(&buf), g(off), g(len), g(start), g(nth)], &["c19.find_nth.spec"], format!("nth o{} l{} k{kind}", off % 8, lenclass(len))));
+        }
+        // iterator script
+        let steps = r.below(8);
+        let mut codes = Vec::new(); let mut ks = Vec::new();
+        for _ in 0..steps { let c = r.below(4); codes.push(c as i64); ks.push(if c >= 2 { r.below(len / 3 + 2) as i64 } else { 0 }); }
+        emit(Case::new("c19.iter_script", vec![gbytes(&buf), g(off), g(len), gs(&codes), gs(&ks)], &["c19.iter_script.spec"], format!("iters n{steps} l{}", lenclass(len))));
+        // --- binary family
+        let (ro, kind2) = (r.below(131), r.below(9));
+        let pad2 = r.below(4) + 1;
+        let rbuf = content(r, kind2, (ro + len + 7) / 8 + pad2, ro, len);
+        let api = r.below(6);
+        let f = match api { 0 | 4 | 5 => r.below(3), 1 => r.below(4), _ => r.below(8) };
+        let al = r.below(8); let ar = r.below(8);
+        emit(Case::new("c19.binop", vec![gbytes(&buf), g(off), gbytes(&rbuf), g(ro), g(len), g(api + 16 * al + 128 * ar), g(f)], &["c19.binop.spec"],
+            format!("binop api{api} f{f} lo{} ro{} l{}", off % 8, ro % 8, lenclass(len))));
+        let f2 = r.below(8);
+        emit(Case::new("c19.binop_inplace", vec![gbytes(&buf), g(off), gbytes(&rbuf), g(ro), g(len), g(f2)], &["c19.binop_inplace.spec"],
+            format!("binip f{f2} lo{} ro{} l{}", off % 8, ro % 8, lenclass(len))));
+        let lenb = if r.chance(1, 5) { r.below(201) } else { len };
+        let same = r.bool();
+        let (eb, eo) = if same && lenb == len { // same logical bits at a different offset
+            let mut v = r.bytes((ro + len + 7) / 8 + 1);
+            for i in 0..len { let bit = (buf[(off + i) / 8] >> ((off + i) % 8)) & 1 == 1; if bit { v[(ro + i) / 8] |= 1 << ((ro + i) % 8) } else { v[(ro + i) / 8] &= !(1 << ((ro + i) % 8)) } }
+            if len > 0 && r.chance(1, 3) { let p = r.below(len); v[(ro + p) / 8] ^= 1 << ((ro + p) % 8); }
+            (v, ro) } else { (rbuf.clone(), ro) };
+        if (eo + lenb + 7) / 8 <= eb.len() {
+            emit(Case::new("c19.eq", vec![gbytes(&buf), g(off), gbytes(&eb), g(eo), g(len), g(lenb)], &["c19.eq.spec"], format!("eq s{} l{}", same as u8, lenclass(len))));
+        }
+        let (pa, pb) = (r.chance(4, 5), r.chance(4, 5));
+        emit(Case::new("c19.union", vec![g(pa as u8), gbytes(&buf), g(off), g(pb as u8), gbytes(&rbuf), g(ro), g(len)], &["c19.union.spec"], format!("union {}{} k{kind}{kind2} l{}", pa as u8, pb as u8, lenclass(len))));
+        emit(Case::new("c19.contains", vec![gbytes(&buf), g(off), gbytes(&rbuf), g(ro), g(len)], &["c19.contains.spec"], format!("contains k{kind}{kind2} l{}", lenclass(len))));
+        if r.chance(1, 3) {
+            let mut args = vec![g(len)];
+            let m = r.below(5);
+            for _ in 0..m { let o = r.below(70); let k = r.below(9); let b = content(r, k, (o + len + 7) / 8 + 1, o, len); args.push(g(r.chance(4, 5) as u8)); args.push(gbytes(&b)); args.push(g(o)); }
+            emit(Case::new("c19.union_many", args, &["c19.union_many.spec"], format!("union_many m{m} l{}", lenclass(len))));
+            let cnt = r.below(6); let l2 = len.min(80);
+            emit(Case::new("c19.expand", vec![gbytes(&buf), g(off), g(l2), g(cnt)], &["c19.expand.spec"], format!("expand c{cnt} l{}", lenclass(l2))));
+            // quaternary
+            let mut qa = Vec::new();
+            for _ in 0..4 { let o = r.below(131); let k = r.below(9); qa.push(gbytes(&content(r, k, (o + len + 7) / 8 + 1, o, len))); qa.push(g(o)); }
+            let f = r.below(4); qa.push(g(len)); qa.push(g(f));
+            emit(Case::new("c19.quat", qa, &["c19.quat.spec"], format!("quat f{f} l{}", lenclass(len))));
+            // builder history
+            let mut ops: Args = Vec::new(); let mut cur = 0usize;
+            for _ in 0..r.below(12) {
+                let c = r.below(9);
+                let bitsn = |r: &mut Rng, n: usize| -> Vec<i64> { (0..n).map(|_| r.bool() as i64).collect() };
+                match c {
+                    0 => { ops.push(gs(&[0, r.bool() as i64])); cur += 1 }
+                    1 => { let k = r.below(150); ops.push(gs(&[1, k as i64, r.bool() as i64])); cur += k }
+                    2 | 3 => { let k = r.below(140); let mut v = vec![c as i64]; v.extend(bitsn(r, k)); ops.push(gs(&v)); cur += k }
+                    4 => if cur > 0 { ops.push(gs(&[4, r.below(cur) as i64, r.bool() as i64])) },
+                    5 => { let k = r.below(cur + 1); ops.push(gs(&[5, k as i64])); cur = k }
+                    6 => { let k = r.below(cur + 80); ops.push(gs(&[6, k as i64])); cur = k }
+                    7 => { let k = r.below(70); ops.push(gs(&[7, k as i64])); cur += k }
+                    _ => { let k = r.below(65); let mut v = vec![8i64]; v.extend(bitsn(r, k)); ops.push(gs(&v)); cur += k }
+                }
+            }
+            let nops = ops.len();
+            emit(Case::new("c19.builder", ops, &["c19.builder.spec"], format!("builder n{nops}")));
         }
     }
 }
